@@ -196,5 +196,9 @@ def obligations(tier):
         for ints, extra, label in shards(pat, 9 if tier == "quick" else 99, tier):
             obs.append(make(pat, "empty_iff_omitted", ints, extra, label, t, name=f"L4.empty_iff_omitted[{pat}; {label}]"))
             obs.append(make(pat, "render_matches_model", ints, extra, label, t, name=f"L4.render_matches_model[{pat}; {label}]"))
+    # L5: which states bumping can reach (the excluded states (final, NUM > 0) of PYTAG patterns are unreachable): C05's numeric step
+    from vp.props import c05 as _c05
+    obs += [o for o in _c05.obligations("quick") if "MAJOR.MINOR.PATCH[PYTAGNUM]" in o.name and (o.name.startswith("L1.numeric_step")
+                                                                                                 or o.name.startswith("L2b."))]
     obs.append(Ob("twin.some_rendering_accepted", "c02.py", "twin_never_parses", {}, expect="refute", timeout=60))
     return obs
